@@ -2,6 +2,7 @@ package rules
 
 import (
 	"go/ast"
+	"go/token"
 	"go/types"
 	"sort"
 	"strings"
@@ -375,4 +376,77 @@ func sendErrorReturnsError(c *cx, id string) {
 		c.r.Check(id, f, "sendError returns an error", "P: every return of sendError yields the error it was given or an error established non-nil", rs.Pos(), ok, why)
 	}
 	c.r.Floor(id, "returns of sendError", n, 3)
+}
+
+// staleNotification (C18.10/C06.12): Channel.depart is a one-slot notification
+// channel that HandlePresence fills for EVERY unavailable self-presence, also
+// when nobody waits for one (the occupant was removed from the room). A wait
+// that would accept such a left-over token as the answer to its own request
+// returns before the room has answered. In LeavePresence every path to the
+// goroutine that sends the leave presence passes a non-blocking receive that
+// empties the slot.
+func staleNotification(c *cx, id string) {
+	f := c.fn(id, "muc", "(*Channel).LeavePresence")
+	if f == nil {
+		return
+	}
+	g := f.Graph()
+	isDrain := func(q eng.Point, nd ast.Node) bool {
+		sel, ok := nd.(*ast.SelectStmt)
+		if !ok {
+			// go/cfg splits a select into its comm clauses: look at the parent
+			if p, isSel := g.Parent(nd).(*ast.CommClause); isSel {
+				if ss, ok := g.Parent(g.Parent(p)).(*ast.SelectStmt); ok {
+					sel = ss
+				}
+			}
+		}
+		if sel == nil {
+			return false
+		}
+		hasDef, hasRecv := false, false
+		for _, cc := range sel.Body.List {
+			cl := cc.(*ast.CommClause)
+			if cl.Comm == nil {
+				hasDef = true
+				continue
+			}
+			ast.Inspect(cl.Comm, func(x ast.Node) bool {
+				if u, ok := x.(*ast.UnaryExpr); ok && u.Op == token.ARROW && chanClass(f, u.X, 0) == "muc.Channel.depart" {
+					hasRecv = true
+				}
+				return true
+			})
+		}
+		return hasDef && hasRecv && len(sel.Body.List) == 2
+	}
+	n := 0
+	for _, gs := range f.Body.List {
+		_ = gs
+	}
+	f.WalkBody(func(nd ast.Node) bool {
+		gst, ok := nd.(*ast.GoStmt)
+		if !ok {
+			return true
+		}
+		lit, ok := ast.Unparen(gst.Call.Fun).(*ast.FuncLit)
+		if !ok {
+			return true
+		}
+		sends := false
+		ast.Inspect(lit.Body, func(x ast.Node) bool {
+			if cl, ok := x.(*ast.CallExpr); ok && strings.HasPrefix(f.CalleeID(cl), "xmpp.Session.SendPresence") {
+				sends = true
+			}
+			return !sends
+		})
+		if !sends {
+			return true
+		}
+		n++
+		pt, okp := g.Where(gst)
+		c.r.Check(id, f, "departure slot emptied before the leave presence is sent", "O: every path to the goroutine that sends the leave presence passes `select { case <-c.depart: default: }`", gst.Pos(), okp && g.MustPassBefore(g.Entry(), pt, isDrain, nil), "a departure recorded earlier (nobody waited for it) is taken for the answer to this request: Leave returns before the room has answered")
+		return true
+	})
+	c.r.Floor(id, "leave requests in LeavePresence", n, 1)
 }
